@@ -81,7 +81,7 @@ def run(ctx):
     q = ctx.quick()
     cs = streams.expand_generated(streams.compress_cases(ctx, 200 if q else 3000, 300 if q else 4000, nbig=3 if q else 40))
     core.pmap(lambda c: one(ctx, lb, c), cs)
-    core.pmap(lambda c: one(ctx, lb, c), streams.deep_runa_cases(ctx, lb, 24 if q else 160))
+    core.pmap(lambda c: one(ctx, lb, c), streams.deep_runa_cases(ctx, lb, 40 if q else 400))
     for k in ('unused_tables', 'blocks_with_padding_selector', 'blocks_with_padded_first_delta'):
         if not ctx.monitors.get(k):
             ctx.harness_error('corner mechanism never exercised: ' + k)
